@@ -624,3 +624,116 @@ Section HeapStageFacts.
     - rewrite Hlen. apply Hrange. exact Hw.
   Qed.
 End HeapStageFacts.
+
+(* ------------------------------------------------------------------ the fuel the model passes is never exhausted *)
+Lemma list_sum_change : forall (f f' : nat -> nat) (l : list nat) v c,
+  NoDup l -> In v l -> (forall x, x <> v -> f' x = f x) -> f v = c -> f' v = O ->
+  (list_sum (map f' l) + c = list_sum (map f l))%nat.
+Proof.
+  induction l as [|a t IH]; intros v c Hnd Hin Hoth Hv Hv'; [destruct Hin|].
+  apply NoDup_cons_iff in Hnd. destruct Hnd as [Hnot Hnd]. cbn [map].
+  change (list_sum (f' a :: map f' t)) with (f' a + list_sum (map f' t))%nat.
+  change (list_sum (f a :: map f t)) with (f a + list_sum (map f t))%nat.
+  destruct Hin as [Hin|Hin].
+  - subst a. rewrite Hv, Hv'. replace (map f' t) with (map f t); [lia|].
+    apply map_ext_in. intros x Hx. symmetry. apply Hoth. intro X. subst. contradiction.
+  - rewrite (Hoth a) by (intro X; subst; contradiction). pose proof (IH v c Hnd Hin Hoth Hv Hv'). lia.
+Qed.
+
+Lemma nedges_rows : forall g : qadj, list_sum (map (fun v => length (get [] g v)) (seq 0 (length g))) = nedges g.
+Proof.
+  induction g as [|r t IH]; [reflexivity|].
+  cbn [length seq map]. rewrite <- seq_shift, map_map.
+  change (list_sum (length (get [] (r :: t) 0) :: map (fun v => length (get [] (r :: t) (S v))) (seq 0 (length t))))
+    with (length r + list_sum (map (fun v => length (get [] t v)) (seq 0 (length t))))%nat.
+  rewrite IH. reflexivity.
+Qed.
+
+Section HeapFuel.
+  Variable g : qadj.
+  Variable src : nat.
+  Notation n := (length g).
+  Hypothesis Hok : adj_ok n g = true.
+  Hypothesis Hsrc : (src < n)%nat.
+  Hypothesis Hcost : forall v e, In e (get [] g v) -> exists c, snd e = inject_Z c /\ (0 < c)%Z.
+
+  Definition unfin_row (s : bs) (v : nat) : nat := match DD s v with None => length (get [] g v) | Some _ => O end.
+  Definition unfin (s : bs) : nat := list_sum (map (unfin_row s) (seq 0 n)).
+  Definition pot (s : bs) : nat := (length (bfr s) + unfin s)%nat.
+
+  Lemma brelax_D : forall v d s a, bD (brelax v d s a) = bD s.
+  Proof.
+    intros v d s [w cost]. unfold brelax.
+    destruct (_ && _); [reflexivity|]. destruct (oqeqb _ _); reflexivity.
+  Qed.
+
+  Lemma brelax_fr : forall v d s a, (length (bfr (brelax v d s a)) <= S (length (bfr s)))%nat.
+  Proof.
+    intros v d s [w cost]. unfold brelax.
+    destruct (_ && _); [cbn [bfr]; rewrite app_length; cbn [length]; lia|]. destruct (oqeqb _ _); cbn [bfr]; lia.
+  Qed.
+
+  Lemma row_D : forall v d todo s, bD (fold_left (brelax v d) todo s) = bD s.
+  Proof. intros v d. induction todo as [|a t IH]; intros s; cbn [fold_left]; [reflexivity|]. rewrite IH. apply brelax_D. Qed.
+
+  Lemma row_fr : forall v d todo s, (length (bfr (fold_left (brelax v d) todo s)) <= length todo + length (bfr s))%nat.
+  Proof.
+    intros v d. induction todo as [|a t IH]; intros s; cbn [fold_left length]; [lia|].
+    pose proof (IH (brelax v d s a)). pose proof (brelax_fr v d s a). lia.
+  Qed.
+
+  Lemma unfin_ext : forall s s', bD s' = bD s -> unfin s' = unfin s.
+  Proof. intros s s' H. unfold unfin, unfin_row, DD. rewrite H. reflexivity. Qed.
+
+  Lemma unfin_final : forall s s' v d, (v < n)%nat -> DD s v = None -> length (bD s) = n ->
+    bD s' = upd v (Some d) (bD s) -> (unfin s' + length (get [] g v) = unfin s)%nat.
+  Proof.
+    intros s s' v d Hv HD Hl E0. unfold unfin.
+    apply (list_sum_change (unfin_row s) (unfin_row s') (seq 0 n) v (length (get [] g v))).
+    - apply seq_NoDup.
+    - apply in_seq. lia.
+    - intros x Hx. unfold unfin_row, DD. rewrite E0. rewrite get_upd_neq by congruence. reflexivity.
+    - unfold unfin_row. rewrite HD. reflexivity.
+    - unfold unfin_row, DD. rewrite E0. rewrite get_upd_eq by lia. reflexivity.
+  Qed.
+
+  Lemma bloop_fuel : forall fuel lw s R m,
+    K g src s R [] m -> (pot s < fuel)%nat -> exists s', bloop fuel lw g s = Some s'.
+  Proof.
+    induction fuel as [|f IH]; intros lw s R m HK Hf; [lia|].
+    cbn [bloop]. destruct (bfr s) as [|x t] eqn:Hfr; [eexists; reflexivity|].
+    destruct (extract_min lw x t []) as [[[d pred] v] rest] eqn:Hex.
+    destruct (extract_min_spec lw t x [] _ _ Hex ltac:(intros e [])) as [Hmem [_ Hlen]].
+    cbn [bD bseen bsig bP bS bfr]. change (get None (bD s) v) with (DD s v).
+    assert (Hpot : pot s = (S (length rest) + unfin s)%nat).
+    { unfold pot. rewrite Hfr, Hlen. cbn [length]. lia. }
+    destruct (DD s v) as [q|] eqn:Hv.
+    - apply (IH lw _ R m).
+      + eapply (K_skip g src); eauto. congruence.
+      + unfold pot, unfin, unfin_row, DD in *. cbn [bfr bD] in *. lia.
+    - destruct (K_final g src Hsrc Hcost s R m lw x t d pred v rest
+                 (upd v (Qred (get 0 (bsig s) v + get 0 (bsig s) pred)) (bsig s)) (bP s) (bS s ++ [v])
+                 HK Hfr Hex Hv) as [z [Ed HK1]].
+      assert (Hb : In (d, pred, v) (bfr s)).
+      { rewrite Hfr. assert (X : In (d, pred, v) (x :: t ++ [])) by (apply Hmem; left; reflexivity). rewrite app_nil_r in X. exact X. }
+      destruct (k_fr _ _ _ _ _ _ HK d pred v Hb) as [Hvn _]. destruct (k_len _ _ _ _ _ _ HK) as [HlD _].
+      set (s2 := mkbs (upd v (Some d) (bD s)) (bseen s) (upd v (Qred (get 0 (bsig s) v + get 0 (bsig s) pred)) (bsig s))
+                      (bP s) (bS s ++ [v]) rest) in *.
+      destruct (K_row g src Hok Hsrc Hcost (get [] g v) s2 R z v ltac:(auto) HK1) as [R' HK2].
+      rewrite Ed. apply (IH lw _ R' z HK2).
+      rewrite <- Ed. unfold pot.
+      pose proof (row_fr v d (get [] g v) s2) as F1.
+      rewrite (unfin_ext s2 _ (row_D v d (get [] g v) s2)).
+      pose proof (unfin_final s s2 v d Hvn Hv HlD eq_refl) as F2.
+      change (length (bfr s2)) with (length rest) in F1. lia.
+  Qed.
+
+  Theorem bdijkstra_total : forall lw, exists s, bdijkstra lw g src = Some s.
+  Proof.
+    intros lw. unfold bdijkstra. apply (bloop_fuel _ lw _ [] 0%Z (K_init g src Hsrc)).
+    assert (E0 : unfin (init_b g src) = nedges g).
+    { rewrite <- nedges_rows. unfold unfin. apply f_equal. apply map_ext. intros v. unfold unfin_row, DD, init_b. cbn [bD].
+      destruct (get_repeat _ (@None Q) n v None) as [H|H]; rewrite H; reflexivity. }
+    unfold pot. rewrite E0. unfold init_b. cbn [bfr length]. lia.
+  Qed.
+End HeapFuel.
